@@ -185,10 +185,14 @@ pub fn disconnect_ultimatum() -> Vec<u8> {
     x224_data(&[0x21, 0x80])
 }
 
-pub fn licence_valid_client() -> Vec<u8> {
+pub fn licence_valid_client() -> Vec<u8> { licence_valid_client_f(0x03) }
+
+/// licensing error alert STATUS_VALID_CLIENT / ST_NO_TRANSITION with the given preamble flags
+/// (low nibble = preamble version 2 or 3, 0x80 = EXTENDED_ERROR_MSG_SUPPORTED)
+pub fn licence_valid_client_f(pflags: u8) -> Vec<u8> {
     let mut v = u16le(0x0080);
     v.extend(u16le(0));
-    v.extend_from_slice(&[0xff, 0x03]);
+    v.extend_from_slice(&[0xff, pflags]);
     v.extend(u16le(16));
     v.extend(u32le(7));
     v.extend(u32le(2));
@@ -197,11 +201,13 @@ pub fn licence_valid_client() -> Vec<u8> {
     sdin(1003, &v)
 }
 
-pub fn licence_new_license() -> Vec<u8> {
+pub fn licence_new_license() -> Vec<u8> { licence_new_license_f(0x03) }
+
+pub fn licence_new_license_f(pflags: u8) -> Vec<u8> {
     let blob: Vec<u8> = (0..24u8).collect();
     let mut v = u16le(0x0080);
     v.extend(u16le(0));
-    v.extend_from_slice(&[0x03, 0x03]);
+    v.extend_from_slice(&[0x03, pflags]);
     v.extend(u16le((4 + 4 + blob.len() + 16) as u16));
     v.extend(u16le(9));                       // BB_ENCRYPTED_DATA_BLOB
     v.extend(u16le(blob.len() as u16));
